@@ -546,6 +546,7 @@ func (x *bexec) exec(line string) {
 	case "reset":
 		w.reset()
 		x.emit(line, "ok", "reset", false)
+		x.chkWlView() // a fresh world: nothing of an earlier world may be visible
 		return
 	case "restart":
 		pb, rb := w.dumpProphecies(), w.dumpBridgeRest()
@@ -592,14 +593,108 @@ func (x *bexec) exec(line string) {
 		x.emit(line, "ok", "wlset", false)
 	case "tx":
 		x.execTx(line, t[1], t[2:])
+	case "txm":
+		var msgs []sdk.Msg
+		var seg []string
+		for _, tok := range append(t[1:], "|") {
+			if tok == "|" {
+				if len(seg) > 0 {
+					msgs = append(msgs, w.msgOf(seg[0], seg[1:]))
+				}
+				seg = nil
+			} else {
+				seg = append(seg, tok)
+			}
+		}
+		ans := w.deliverMany(msgs)
+		cls := ans
+		if strings.HasPrefix(ans, "ok") {
+			cls = "ok"
+		}
+		x.emit(line, ans, "txm."+cls, true)
+	case "blk":
+		// next block: same stores, height + 1
+		w.ctx = w.ctx.WithBlockHeight(w.ctx.BlockHeight() + 1)
+		x.emit(line, "ok", "blk", false)
 	default:
 		panic("unknown line " + line)
 	}
 	x.obs()
+	// after every line that can touch the whitelist (or the block height): the keeper's view against the store
+	if t[0] == "wlset" || t[0] == "txm" || t[0] == "restart" || t[0] == "blk" || (t[0] == "tx" && t[1] == "wl") {
+		x.chkWlView()
+	}
 }
 
 func (x *bexec) obs() {
 	x.emit("obs", x.w.dumpState(), "obs", false)
+}
+
+// the whitelist the keeper serves against the whitelist the multistore holds (read raw, decoded with the codec)
+func (x *bexec) chkWlView() {
+	w := x.w
+	view, stored := w.dumpWl(), w.dumpWlStored()
+	x.emit(fmt.Sprintf("chk wlview tag=oracle.whitelist.keeper-view-equals-store view=%s stored=%s", view, stored), "true", "chk.wlview", view != "-")
+}
+
+// dumpWlStored reads the whitelist straight from the oracle store
+func (w *bworld) dumpWlStored() string {
+	bz := w.ctx.KVStore(w.app.GetKey(oracletypes.StoreKey)).Get(oracletypes.WhiteListValidatorPrefix)
+	var v stakingtypes.ValAddresses
+	w.app.AppCodec().MustUnmarshal(bz, &v)
+	var xs []string
+	for _, a := range v.Addresses {
+		va, err := sdk.ValAddressFromBech32(a)
+		if err != nil {
+			xs = append(xs, "?"+a)
+			continue
+		}
+		xs = append(xs, w.valAlias(va))
+	}
+	return listOrDash(xs)
+}
+
+// msgOf builds an administrative message of a multi-message transaction
+func (w *bworld) msgOf(kind string, t []string) sdk.Msg {
+	switch kind {
+	case "wl":
+		return &ethtypes.MsgUpdateWhiteListValidator{CosmosSender: w.acctStr(t[0]), Validator: w.valStr(t[2]), OperationType: t[1]}
+	case "pause":
+		return &ethtypes.MsgPause{Signer: w.acctStr(t[0]), IsPaused: t[1] == "1"}
+	case "bl":
+		var l []string
+		if t[1] != "-" {
+			l = strings.Split(t[1], ",")
+		}
+		return &ethtypes.MsgSetBlacklist{From: w.acctStr(t[0]), Addresses: l}
+	case "recv":
+		return &ethtypes.MsgUpdateCethReceiverAccount{CosmosSender: w.acctStr(t[0]), CethReceiverAccount: w.acctStr(t[1])}
+	case "rescue":
+		return &ethtypes.MsgRescueCeth{CosmosSender: w.acctStr(t[0]), CosmosReceiver: w.acctStr(t[1]), CethAmount: sdk.NewIntFromBigInt(bigOf(t[2]))}
+	}
+	panic("txm: unsupported message kind " + kind)
+}
+
+// deliverMany = baseapp.runTx for several messages: ValidateBasic of all of them, then every handler on ONE cached
+// context, which is written only if all succeeded; the first error or panic discards everything.
+func (w *bworld) deliverMany(msgs []sdk.Msg) string {
+	return protect(func() string {
+		for _, m := range msgs {
+			if err := m.ValidateBasic(); err != nil {
+				return "err.validate"
+			}
+		}
+		cctx, write := w.ctx.CacheContext()
+		var oks []string
+		for _, m := range msgs {
+			if _, err := w.h(cctx, m); err != nil {
+				return classify(err)
+			}
+			oks = append(oks, "ok")
+		}
+		write()
+		return strings.Join(oks, ";")
+	})
 }
 
 func evAttr(e sdk.Event, k string) string {
@@ -751,12 +846,26 @@ func (x *bexec) chkClaim(t []string, id string, pb oracletypes.Prophecy, foundB 
 	if foundA {
 		x.emit("chk wf tag=oracle.prophecy.wellformed p="+w.dumpProphecy(pa), "true", "chk.wf", true)
 	}
+	// C05: an accepted claim comes from a validator in the STORED whitelist, bonded
+	if cls == "ok" {
+		v, _ := splitSp(t[0])
+		stored := w.dumpWlStored()
+		shape := "claimant-not-in-stored-whitelist"
+		for _, al := range strings.Split(stored, ",") {
+			if al == strconv.Itoa(v) {
+				shape = "claimant-in-stored-whitelist"
+			}
+		}
+		x.emit(fmt.Sprintf("chk accept tag=oracle.ProcessClaim.accepted.%s v=%d wl=%s vals=%s", shape, v, stored, w.dumpVals()), "true", "chk.accept", true)
+	}
 	// C05 threshold: the step turned the prophecy SUCCESS
 	if foundA && wasPending && pa.Status.Text == oracletypes.StatusText_STATUS_TEXT_SUCCESS {
 		shape := "all-claimants-whitelisted-bonded"
 		wl := map[string]bool{}
-		for _, a := range w.app.OracleKeeper.GetOracleWhiteList(w.ctx) {
-			wl[a.String()] = true
+		for _, al := range strings.Split(w.dumpWlStored(), ",") {
+			if i, err := strconv.Atoi(al); err == nil {
+				wl[w.vals[i].String()] = true
+			}
 		}
 		for vb := range pa.ValidatorClaims {
 			va, _ := sdk.ValAddressFromBech32(vb)
@@ -769,7 +878,7 @@ func (x *bexec) chkClaim(t []string, id string, pb oracletypes.Prophecy, foundB 
 				shape = "claimant-unbonded"
 			}
 		}
-		x.emit(fmt.Sprintf("chk thr tag=oracle.FindHighestClaim.threshold.%s vals=%s wl=%s p=%s", shape, w.dumpVals(), w.dumpWl(), w.dumpProphecy(pa)),
+		x.emit(fmt.Sprintf("chk thr tag=oracle.FindHighestClaim.threshold.%s vals=%s wl=%s p=%s", shape, w.dumpVals(), w.dumpWlStored(), w.dumpProphecy(pa)),
 			"true", "chk.thr", true)
 	}
 	// C05 finality: a prophecy that was not pending before the claim is unchanged, and so is the bank
